@@ -225,6 +225,12 @@ static void init_threads(void) {
   uv__queue_init(&slow_io_pending_wq);
   uv__queue_init(&run_slow_work_message);
 
+  /* A forked child re-runs this function with the parent's counters in place;
+   * none of the parent's threads exists here.
+   */
+  idle_threads = 0;
+  slow_io_work_running = 0;
+
   if (uv_sem_init(&sem, 0))
     abort();
 
